@@ -79,8 +79,11 @@ pub struct Corruption {
 /// Which positions get the full substitution alphabet.
 #[derive(Clone, Copy, PartialEq, Eq)]
 pub enum Positions {
-    /// every byte position
+    /// every byte position, 7-value alphabet plus every remaining single-bit flip
     All,
+    /// every byte position, 7-value alphabet only
+    #[allow(dead_code)]
+    AllAlphabetOnly,
     /// first, second, middle, last-but-one and last byte of every field
     #[allow(dead_code)]
     FieldEdges,
@@ -124,7 +127,7 @@ pub fn corruptions(e: &[u8], fields: &[Field], other: Option<&[u8]>, pos: Positi
     // substitutions
     for f in fields {
         let positions: Vec<usize> = match pos {
-            Positions::All => (f.start..f.end).collect(),
+            Positions::All | Positions::AllAlphabetOnly => (f.start..f.end).collect(),
             Positions::FieldEdges => edge_positions(f),
         };
         for p in positions {
@@ -261,7 +264,7 @@ impl Tally {
         self.violations.sort_by(|a, b| (a.0.len(), &a.0).cmp(&(b.0.len(), &b.0)));
         self.violations.truncate(2000);
         for s in o.samples {
-            if self.samples.len() < 6 {
+            if self.samples.len() < 8 {
                 self.samples.push(s);
             }
         }
